@@ -297,8 +297,8 @@ class Pipeline:
 				out.render_message = 'render exceeded the wall cap'
 			except BaseException as e2:  # noqa: BLE001
 				out.render = 'fail'
-				fr = tranp_frames(e2)
-				out.render_key = f'render:{class_name(e2)}@{fr[-1] if fr else "no-tranp-frame"}'
+				# same naming rule as for escapes (a RecursionError is named by its cycle, not by where the limit happened to be hit)
+				out.render_key = f'render:{escape_key(e2, self.mode)}'
 				out.render_message = _safe_str(e2)
 		os.chdir(old_cwd)
 		signal.signal(signal.SIGALRM, old_handler)
